@@ -29,4 +29,8 @@ def from_message(message):
         '#VALUE!': VALUE,
         '#GETTING_DATA': DATA
     }
-    return errdict.get(str(message), ERROR)
+    try:
+        message = str(message)
+    except Exception:
+        return ERROR
+    return errdict.get(message, ERROR)
